@@ -4,6 +4,7 @@
 From Coq Require Import Arith List Bool.
 From KV Require Import Model.CycleWorld Proofs.CycleWorld.
 From KV Require Model.PatchObj Proofs.Retrigger.
+From KV Require Import Proofs.CycleCalm.
 Import ListNotations.
 
 (* Changes made while the operator is down are handled as ONE accumulated change: after
@@ -111,3 +112,88 @@ Theorem C03_quiet_only_when_done :
   PatchObj.ap_applied r = true -> PatchObj.po_min delays = None /\ PatchObj.po_patch_truthy patch0 fns = false.
 Proof. exact Retrigger.apply_quiet_only_when_done. Qed.
 Print Assumptions C03_quiet_only_when_done.
+
+(* ------------------------------------------------------------------------------------------------------------
+   LIVENESS on the closed-loop model, unbounded: once the environment is calm (no further edits, kills, restarts,
+   re-lists, daemon exits) and handlers stop failing, handling terminates, for every handler set with unique ids,
+   every lifecycle, every consistency timeout, every retry delay, every number of failures before.
+
+   [calm] is the class of states the operator is in between external disturbances when nothing went wrong in the
+   way F13/F14/F15 describe: it is up, carries no refused transformation, the finalizer is as required, at most the
+   current state is queued (its own echo), progress records exist only for the handlers of the outstanding cause.
+   It is entered by an edit of an object at rest and by a (re)start on any object without foreign-cause records
+   (so: after any crash, any downtime with any number of edits - C03_downtime_accumulates), and is preserved by the
+   operator's own steps WHATEVER the handlers do.  The three refutations above are exactly the ways out of it. *)
+
+(* the forced step of the calm phase (process the queued event; else sleep to the timer and touch) is an execution
+   of the transition system, for every outcome of the handlers *)
+Theorem C03_forced_step_is_execution : forall hc hu lc T,
+  has_handlers hc hu = true ->
+  forall orc w, calm hc hu w -> run hc hu lc T w (calm_labels hc hu lc orc w) = Some (calm_step hc hu lc T orc w).
+Proof. exact calm_step_run. Qed.
+Print Assumptions C03_forced_step_is_execution.
+
+Theorem C03_calm_is_invariant : forall hc hu lc T,
+  NoDup (hc ++ hu) -> has_handlers hc hu = true ->
+  forall orc w, calm hc hu w -> calm hc hu (calm_step hc hu lc T orc w).
+Proof. exact calm_step_calm. Qed.
+Print Assumptions C03_calm_is_invariant.
+
+Theorem C03_calm_after_edit : forall hc hu lc T w e w',
+  calm hc hu w -> quiescent w = true -> step hc hu lc T w (Edit e) = Some w' -> calm hc hu w'.
+Proof. exact calm_after_edit. Qed.
+Print Assumptions C03_calm_after_edit.
+
+Theorem C03_calm_after_start : forall hc hu lc T w w',
+  (forall h, In h (owned hc hu) -> rget h (o_recs (w_srv w)) <> None -> In h (selected hc hu (w_srv w))) ->
+  step hc hu lc T w (Start (o_fin (w_srv w))) = Some w' -> calm hc hu w'.
+Proof. exact calm_after_start. Qed.
+Print Assumptions C03_calm_after_start.
+
+(* every forced step under succeeding handlers decreases a rank; at rank 0 the object is at rest and settled *)
+Theorem C03_rank_decreases : forall hc hu lc T,
+  NoDup (hc ++ hu) -> has_handlers hc hu = true ->
+  forall w, calm hc hu w -> 0 < rank hc hu w -> rank hc hu (calm_step hc hu lc T ok w) < rank hc hu w.
+Proof. exact rank_decreases. Qed.
+Print Assumptions C03_rank_decreases.
+
+(* THE STATEMENT: after ANY finite sequence of handler outcomes (temporary errors with any delays, permanent
+   errors, successes), once handlers succeed, a bounded number of the operator's own steps - an execution of the
+   transition system - brings the object to rest: nothing queued, no sleep pending, on the final essence, recorded
+   as handled, no progress records; and every handler that was still pending has been invoked, with success, on
+   that final essence. *)
+Theorem C03_converges : forall hc hu lc T,
+  NoDup (hc ++ hu) -> has_handlers hc hu = true ->
+  forall w failing, calm hc hu w ->
+  exists n ls w',
+    w' = drive hc hu lc T (failing ++ repeat ok n) w
+    /\ run hc hu lc T w ls = Some w'
+    /\ quiescent w' = true
+    /\ o_ess (w_srv w') = o_ess (w_srv w)
+    /\ o_last (w_srv w') = Some (o_ess (w_srv w))
+    /\ no_own_records hc hu (w_srv w') = true
+    /\ (forall h, pending_handler hc hu (drive hc hu lc T failing w) h -> served (drive hc hu lc T failing w) w' h).
+Proof. exact calm_convergence. Qed.
+Print Assumptions C03_converges.
+
+(* ... within [rank] steps *)
+Theorem C03_converges_bounded : forall hc hu lc T,
+  NoDup (hc ++ hu) -> has_handlers hc hu = true ->
+  forall w, calm hc hu w ->
+  exists n, n <= rank hc hu w
+    /\ quiescent (drive hc hu lc T (repeat ok n) w) = true
+    /\ settled hc hu (w_srv (drive hc hu lc T (repeat ok n) w)) = true.
+Proof. exact calm_converges. Qed.
+Print Assumptions C03_converges_bounded.
+
+(* non-vacuity: a new object with two creation handlers (one-by-one), the first failing twice with a retry delay of
+   5 ticks before it succeeds: the start state is calm, and the forced steps bring it to rest, with three
+   invocations of handler 0 (retries 0, 1, 2) and one of handler 1, all on essence 7 *)
+Example C03_converges_example :
+  let w0 := mkWorld (mkObj 1 7 None [] false false) (mkMem true [mkObj 1 7 None [] false false] [] None None true) false 0 [] in
+  let fail0 := fun h : hid => if Nat.eqb h 0 then Temp 5 else OK in
+  let w' := drive [0; 1] [] OneByOne 40 ([fail0; fail0; fail0; fail0; fail0; fail0] ++ repeat ok 6) w0 in
+  quiescent w' = true /\ settled [0; 1] [] (w_srv w') = true
+  /\ map (fun x => (fst (fst (fst x)), snd (fst (fst x)), snd x)) (w_log w')
+     = [(0, 0, Temp 5); (1, 0, OK); (0, 1, Temp 5); (0, 2, OK)].
+Proof. vm_compute. repeat split; reflexivity. Qed.
